@@ -7,13 +7,17 @@
  *   C M <hex JSON fields>                                      new modify/restore case on a fresh Host
  *   M <hex attr> <hex JSON value> | <ok> <hex JSON fields> <hex JSON original_attributes>
  *   R <hex attr>                  | <ok> <hex JSON fields> <hex JSON original_attributes>
- *   S <hex JSON spec> | <known,names|-> <hex state before> <hex state after> <hex cfg before> <hex cfg after> <loaded 0|1> <num>tok,...|->
+ *   I <TypeName> | <field>:<attribute flags> ...              the fields of a reflection type with their FieldAttribute bits (FAState = 4)
+ *   S <hex JSON spec> | <known,names|-> <hex state before> <hex state after> <hex cfg before> <hex cfg after> <loaded 0|1> <num>tok,...|-> <hex getters before> <hex getters after>
+ *        getters: the attributes the statement names (l_Pinned, mirror of Spec.lean's `pinnedState`) read one by one through
+ *        GetField(id) - independent of the attribute mask Serialize applies - nested objects (CheckResult) field by field
  *        loaded: modified-attributes.conf compiled at start-up; the last field is the oracle for the config writer's number
  *        text (C17): for every number in the modifications whose JSON token changes through ConfigWriter::EmitValue +
  *        ConfigCompiler, `before>after` (`!` = the text does not compile)
  *        one object through DumpObjects + DumpModifiedAttributes -> fresh process -> same config ->
  *        RestoreObjects + ActivateItems(withModAttrs); state = Serialize(obj, FAState) without `version`,
  *        cfg = Serialize(obj, FAConfig) + original_attributes + version
+ *        kind: h Host, s Service, n Notification, d Downtime, c Comment, u User; st.x = {attribute: value} is set through SetField
  *        spec keys: kind, name, vars, notes, st (state), mods [[attr, value]..] (runtime modifications), restore [attr..]
  *        (restored again after a first complete dump: the dump that counts is the second one), deep n (executions nested n deep)
  *   B <batch> <objects> <bytes of the state file>                information only
@@ -394,11 +398,20 @@ static const char *l_Keys[] = { "a", "b", "c", "d", "k" };
 static const char *l_OddKeys[] = { "", "a.b", "x y", "\xc3\xa9", "k\"q", "\xf0\x9f\x98\x80", "type " };
 static const char *l_Strings[] = { "", "s", "ok", "a b", "\xc3\xa4\xc3\xb6", "q\"uote\\", "line\nbreak", "\xf0\x9f\x98\x80", "null", "0", "x.y", "\x01\x7f" };
 static const char *l_TypeNames[] = { "ext4", "xfs", "", "host", "nfs 4" };
+/* keys the config writer has to quote or escape (ConfigWriter::EmitIdentifier/EmitString): leading digit, keywords, punctuation */
+static const char *l_WriterKeys[] = { "80", "443", "2xx", "1st_disk", "0", "007", "_x", "_", "A9", "9",
+	/* every keyword of the lexer (config_lexer.ll): the writer must emit them as @keyword (F-C14i: `in`, `debugger` were missing) */
+	"object", "template", "include", "include_recursive", "include_zones", "library", "null", "true", "false", "const", "var", "this",
+	"globals", "locals", "use", "using", "apply", "default", "to", "where", "import", "assign", "ignore", "function", "return", "break",
+	"continue", "for", "if", "else", "while", "throw", "try", "except", "ignore_on_error", "current_filename", "current_line", "debugger",
+	"namespace", "in", "!in",
+	"a-b", "1.2", "x y", "\xc3\xa9", "k\"q", "b\\s", "tab\there", "nl\nx", "$x$", "a=b", "{", "#c", "/*", "@at" };
 
 struct GenOpts {
 	bool typeKeys = false;   /* dictionaries may carry a `type` key (never naming a registered type) */
 	bool oddKeys = false;    /* keys with dots, spaces, quotes, non-ASCII, empty */
 	bool dollars = false;
+	bool writerKeys = false; /* keys from l_WriterKeys (values that go through the config writer) */
 };
 
 static Value GenValue(Rng& rng, int depth, const GenOpts& o);
@@ -411,6 +424,8 @@ static Dictionary::Ptr GenDict(Rng& rng, int depth, const GenOpts& o, int minLen
 		String key = l_Keys[rng.below(5)];
 		if (o.oddKeys && rng.below(12) == 0)
 			key = l_OddKeys[rng.below(7)];
+		if (o.writerKeys && rng.below(2) == 0)
+			key = l_WriterKeys[rng.below(sizeof(l_WriterKeys) / sizeof(l_WriterKeys[0]))];
 		d->Set(key, GenValue(rng, depth - 1, o));
 	}
 	if (o.typeKeys && rng.below(10) == 0) {
@@ -608,15 +623,145 @@ static void GenMCases(Rng& rng, int cases, bool odd)
 
 static const double l_Now = 1700000000.0;
 
-static Checkable::Ptr BuildConfig(const Dictionary::Ptr& spec)
+/* The attributes the statement names ("states, attempts, check results, acknowledgements, downtime triggers, notification
+ * bookkeeping, next check times"), per kind: what the getter record of an S line reads.  Mirror of `pinnedState` in
+ * lean/IcingaModel/C14/Spec.lean, which is the authority (a name missing here makes the spec clause fail). */
+static const char *l_PinnedCheckable[] = { "next_check", "check_attempt", "state_raw", "state_type", "last_state_raw", "last_hard_state_raw",
+	"last_state_type", "last_reachable", "last_check_result", "last_state_change", "last_hard_state_change", "last_state_unreachable",
+	"previous_state_change", "force_next_check", "acknowledgement", "acknowledgement_expiry", "acknowledgement_last_change",
+	"force_next_notification", "flapping", "flapping_current", "flapping_last_change", "suppressed_notifications",
+	"state_before_suppression", "executions", nullptr };
+static const char *l_PinnedHost[] = { "last_state_up", "last_state_down", nullptr };
+static const char *l_PinnedService[] = { "last_state_ok", "last_state_warning", "last_state_critical", "last_state_unknown", nullptr };
+static const char *l_PinnedNotification[] = { "notified_problem_users", "no_more_notifications", "stashed_notifications", "last_notification",
+	"next_notification", "notification_number", "last_problem_notification", "suppressed_notifications", "last_notified_state_per_user", nullptr };
+static const char *l_PinnedDowntime[] = { "trigger_time", "triggers", "remove_time", nullptr };
+static const char *l_PinnedUser[] = { "last_notification", nullptr };
+static const char *l_PinnedNone[] = { nullptr };
+
+static std::vector<std::string> PinnedOf(const String& kind)
+{
+	std::vector<std::string> r;
+	auto add = [&r](const char **l) { for (; *l; l++) r.push_back(*l); };
+	if (kind == "h") { add(l_PinnedCheckable); add(l_PinnedHost); }
+	else if (kind == "s") { add(l_PinnedCheckable); add(l_PinnedService); }
+	else if (kind == "n") add(l_PinnedNotification);
+	else if (kind == "d") add(l_PinnedDowntime);
+	else if (kind == "u") add(l_PinnedUser);
+	else add(l_PinnedNone);
+	return r;
+}
+
+/* A value as the getters show it: dictionaries and arrays member by member, any other object (CheckResult) as the dictionary
+ * of ALL its fields read through GetField plus its type name - no attribute mask involved. */
+static Value GetterTree(const Value& v)
+{
+	if (v.IsObjectType<Dictionary>()) {
+		Dictionary::Ptr d = v, r = new Dictionary();
+		ObjectLock olock(d);
+		for (const auto& kv : d)
+			r->Set(kv.first, GetterTree(kv.second));
+		return r;
+	}
+	if (v.IsObjectType<Array>()) {
+		Array::Ptr a = v, r = new Array();
+		ObjectLock olock(a);
+		for (const Value& x : a)
+			r->Add(GetterTree(x));
+		return r;
+	}
+	if (v.IsObject()) {
+		Object::Ptr o = v;
+		Type::Ptr t = o->GetReflectionType();
+		Dictionary::Ptr r = new Dictionary();
+		for (int i = 0; i < t->GetFieldCount(); i++) {
+			Field f = t->GetFieldInfo(i);
+			if (f.Attributes & FANavigation)
+				continue;
+			r->Set(f.Name, GetterTree(o->GetField(i)));
+		}
+		r->Set("type", t->GetName());
+		return r;
+	}
+	return v;
+}
+
+static Dictionary::Ptr GettersOf(const ConfigObject::Ptr& c, const String& kind)
+{
+	Dictionary::Ptr r = new Dictionary();
+	Type::Ptr t = c->GetReflectionType();
+	for (const auto& name : PinnedOf(kind)) {
+		int fid = t->GetFieldId(name);
+		if (fid < 0)
+			continue;               /* no such attribute any more: missing from the record, the spec clause says so */
+		r->Set(name, GetterTree(c->GetField(fid)));
+	}
+	return r;
+}
+
+static const char *l_InventoryTypes[] = { "Host", "Service", "Notification", "Downtime", "Comment", "User", "CheckResult" };
+
+static void PrintInventory(const std::string& typeName)
+{
+	printf("I %s |", typeName.c_str());
+	Type::Ptr t = Type::GetByName(typeName);
+	if (t) {
+		for (int i = 0; i < t->GetFieldCount(); i++) {
+			Field f = t->GetFieldInfo(i);
+			printf(" %s:%d", f.Name, f.Attributes);
+		}
+	}
+	printf("\n");
+}
+
+static void SetByName(const ConfigObject::Ptr& c, const char *name, const Value& v)
+{
+	int fid = c->GetReflectionType()->GetFieldId(name);
+	if (fid >= 0)
+		c->SetField(fid, v);
+}
+
+static bool IsCheckableKind(const String& kind) { return kind == "h" || kind == "s"; }
+
+static ConfigObject::Ptr BuildConfig(const Dictionary::Ptr& spec)
 {
 	String kind = spec->Get("kind");
 	String name = spec->Get("name");
-	Checkable::Ptr c;
+	ConfigObject::Ptr c;
 	if (kind == "h") {
 		Host::Ptr h = new Host();
 		h->SetName(name);
 		c = h;
+	} else if (kind == "n") {
+		Notification::Ptr n = new Notification();
+		n->SetName(name + "!n");
+		SetByName(n, "host_name", name);
+		SetByName(n, "interval", 300);
+		c = n;
+	} else if (kind == "d") {
+		Downtime::Ptr d = new Downtime();
+		d->SetName(name + "!d");
+		SetByName(d, "host_name", name);
+		SetByName(d, "author", "au");
+		SetByName(d, "comment", "co");
+		SetByName(d, "entry_time", l_Now - 100);
+		SetByName(d, "start_time", l_Now - 50);
+		SetByName(d, "end_time", l_Now + 5000);
+		SetByName(d, "fixed", false);
+		SetByName(d, "duration", 600);
+		c = d;
+	} else if (kind == "c") {
+		Comment::Ptr m = new Comment();
+		m->SetName(name + "!c");
+		SetByName(m, "host_name", name);
+		SetByName(m, "author", "au");
+		SetByName(m, "text", "te");
+		SetByName(m, "entry_time", l_Now - 100);
+		c = m;
+	} else if (kind == "u") {
+		User::Ptr u = new User();
+		u->SetName(name);
+		c = u;
 	} else {
 		Service::Ptr s = new Service();
 		s->SetName(name + "!s");
@@ -625,16 +770,43 @@ static Checkable::Ptr BuildConfig(const Dictionary::Ptr& spec)
 		c = s;
 	}
 	Value vars = spec->Get("vars");
-	if (vars.IsObjectType<Dictionary>())
-		{ Dictionary::Ptr d = vars.Clone(); c->SetVars(d); }
-	c->SetNotes(spec->Get("notes"));
+	CustomVarObject::Ptr cv = dynamic_pointer_cast<CustomVarObject>(c);
+	if (cv && vars.IsObjectType<Dictionary>())
+		{ Dictionary::Ptr d = vars.Clone(); cv->SetVars(d); }
+	if (IsCheckableKind(kind))
+		static_pointer_cast<Checkable>(c)->SetNotes(spec->Get("notes"));
 	c->Register();
 	return c;
 }
 
-static void ApplyState(const Checkable::Ptr& c, const Dictionary::Ptr& st)
+/* st.x: {attribute name: value}, set through the reflection setter of the object's type (no attribute mask involved) */
+static void ApplyExtra(const ConfigObject::Ptr& c, const Dictionary::Ptr& st)
 {
 	if (!st)
+		return;
+	Value xv = st->Get("x");
+	if (!xv.IsObjectType<Dictionary>())
+		return;
+	Dictionary::Ptr x = xv;
+	Type::Ptr t = c->GetReflectionType();
+	ObjectLock olock(x);
+	for (const auto& kv : x) {
+		int fid = t->GetFieldId(kv.first);
+		if (fid < 0)
+			continue;
+		try {
+			c->SetField(fid, kv.second.Clone());
+		} catch (const std::exception&) { }
+	}
+}
+
+static void ApplyState(const ConfigObject::Ptr& obj, const Dictionary::Ptr& st)
+{
+	if (!st)
+		return;
+	ApplyExtra(obj, st);
+	Checkable::Ptr c = dynamic_pointer_cast<Checkable>(obj);
+	if (!c || !st->Contains("state_raw"))
 		return;
 	c->SetStateRaw((ServiceState)(int)st->Get("state_raw"));
 	c->SetStateType((StateType)(int)st->Get("state_type"));
@@ -680,7 +852,7 @@ static void ApplyState(const Checkable::Ptr& c, const Dictionary::Ptr& st)
 	}
 }
 
-static void ApplyMods(const Checkable::Ptr& c, const Array::Ptr& mods)
+static void ApplyMods(const ConfigObject::Ptr& c, const Array::Ptr& mods)
 {
 	if (!mods)
 		return;
@@ -693,7 +865,7 @@ static void ApplyMods(const Checkable::Ptr& c, const Array::Ptr& mods)
 	}
 }
 
-static void ApplyRestores(const Checkable::Ptr& c, const Array::Ptr& restores)
+static void ApplyRestores(const ConfigObject::Ptr& c, const Array::Ptr& restores)
 {
 	if (!restores)
 		return;
@@ -716,14 +888,14 @@ static void DumpBoth(const std::string& statePath)
 	}
 }
 
-static Dictionary::Ptr StateOf(const Checkable::Ptr& c)
+static Dictionary::Ptr StateOf(const ConfigObject::Ptr& c)
 {
 	Dictionary::Ptr d = Serialize(c, FAState);
 	d->Remove("version"); /* rewritten by the modified-attributes replay; reported with the config */
 	return d;
 }
 
-static Dictionary::Ptr CfgOf(const Checkable::Ptr& c)
+static Dictionary::Ptr CfgOf(const ConfigObject::Ptr& c)
 {
 	Dictionary::Ptr d = Serialize(c, FAConfig);
 	d->Set("__original_attributes", Serialize(c->GetOriginalAttributes(), 0));
@@ -732,6 +904,17 @@ static Dictionary::Ptr CfgOf(const Checkable::Ptr& c)
 }
 
 static Value GenOddNumberValue(Rng& rng);
+
+static Array::Ptr GenNames(Rng& rng)
+{
+	Array::Ptr a = new Array();
+	int n = rng.range(0, 3);
+	for (int i = 0; i < n; i++)
+		a->Add(String("user") + Convert::ToString((long)rng.below(5)) + (rng.below(4) == 0 ? "!\xc3\xa4 x" : ""));
+	return a;
+}
+
+static double GenTs(Rng& rng) { return rng.below(5) == 0 ? 0.0 : l_Now - rng.range(-5000, 100000) + (rng.coin() ? 0.5 : 0.0); }
 
 static Dictionary::Ptr GenSpec(Rng& rng, int idx)
 {
@@ -742,11 +925,70 @@ static Dictionary::Ptr GenSpec(Rng& rng, int idx)
 	stOpts.dollars = true;
 	stOpts.typeKeys = rng.below(4) == 0;
 	Dictionary::Ptr spec = new Dictionary();
-	spec->Set("kind", rng.below(3) == 0 ? "s" : "h");
+	int kk = (int)rng.below(100);
+	String kind = kk < 45 ? "h" : kk < 65 ? "s" : kk < 78 ? "n" : kk < 89 ? "d" : kk < 96 ? "u" : "c";
+	spec->Set("kind", kind);
 	spec->Set("name", "vh" + Convert::ToString(idx));
-	spec->Set("vars", GenDict(rng, 3, cfgOpts, 1));
-	spec->Set("notes", String(l_Strings[rng.below(12)]));
+	bool hasVars = kind != "d" && kind != "c";
+	if (hasVars)
+		spec->Set("vars", GenDict(rng, 3, cfgOpts, 1));
+	if (IsCheckableKind(kind))
+		spec->Set("notes", String(l_Strings[rng.below(12)]));
 	Dictionary::Ptr st = new Dictionary();
+	Dictionary::Ptr x = new Dictionary();
+	st->Set("x", x);
+	if (kind == "n") {
+		x->Set("notified_problem_users", GenNames(rng));
+		x->Set("no_more_notifications", rng.coin());
+		Array::Ptr stash = new Array();
+		for (int i = 0, n = rng.range(0, 2); i < n; i++)
+			stash->Add(new Dictionary({ { "notification_type", (double)(1 << rng.below(9)) }, { "cr", GenValue(rng, 2, stOpts) }, { "force", rng.coin() },
+				{ "reminder", rng.coin() }, { "author", String(l_Strings[rng.below(12)]) }, { "text", String(l_Strings[rng.below(12)]) } }));
+		x->Set("stashed_notifications", stash);
+		x->Set("last_notification", GenTs(rng));
+		x->Set("next_notification", GenTs(rng));
+		x->Set("notification_number", (double)rng.range(0, 50));
+		x->Set("last_problem_notification", GenTs(rng));
+		x->Set("suppressed_notifications", (double)rng.range(0, 511));
+		Dictionary::Ptr per = new Dictionary();
+		for (int i = 0, n = rng.range(0, 3); i < n; i++)
+			per->Set(String("user") + Convert::ToString((long)rng.below(5)) + (rng.below(5) == 0 ? ".x y" : ""), (double)rng.range(0, 3));
+		x->Set("last_notified_state_per_user", per);
+	} else if (kind == "d") {
+		x->Set("trigger_time", GenTs(rng));
+		Array::Ptr trig = new Array();
+		for (int i = 0, n = rng.range(0, 3); i < n; i++)
+			trig->Add(String("vh") + Convert::ToString((long)rng.below(300)) + "!d");
+		x->Set("triggers", trig);
+		x->Set("legacy_id", (double)rng.range(0, 100000));
+		x->Set("remove_time", GenTs(rng));
+	} else if (kind == "c") {
+		x->Set("legacy_id", (double)rng.range(0, 100000));
+	} else if (kind == "u") {
+		x->Set("last_notification", GenTs(rng));
+	}
+	if (!IsCheckableKind(kind)) {
+		spec->Set("st", st);
+	} else {
+	x->Set("last_state_raw", (double)rng.range(0, 3));
+	x->Set("last_state_type", (double)rng.range(0, 1));
+	x->Set("last_reachable", rng.coin());
+	x->Set("last_state_unreachable", GenTs(rng));
+	x->Set("previous_state_change", GenTs(rng));
+	x->Set("acknowledgement_last_change", GenTs(rng));
+	x->Set("force_next_notification", rng.coin());
+	x->Set("flapping", rng.coin());
+	x->Set("flapping_last_change", GenTs(rng));
+	x->Set("state_before_suppression", (double)rng.range(0, 3));
+	if (kind == "h") {
+		x->Set("last_state_up", GenTs(rng));
+		x->Set("last_state_down", GenTs(rng));
+	} else {
+		x->Set("last_state_ok", GenTs(rng));
+		x->Set("last_state_warning", GenTs(rng));
+		x->Set("last_state_critical", GenTs(rng));
+		x->Set("last_state_unknown", GenTs(rng));
+	}
 	st->Set("state_raw", (double)rng.range(0, 3));
 	st->Set("state_type", (double)rng.range(0, 1));
 	st->Set("check_attempt", (double)rng.range(1, 5));
@@ -778,16 +1020,18 @@ static Dictionary::Ptr GenSpec(Rng& rng, int idx)
 		st->Set("cr", cr);
 	}
 	spec->Set("st", st);
-	if (rng.below(3) == 0) {
+	}
+	if (hasVars && rng.below(3) == 0) {
 		/* runtime modifications of existing leaves (what modify_restore_partial covers) and of `notes` */
 		Array::Ptr mods = new Array();
 		Dictionary::Ptr vars = spec->Get("vars");
 		std::vector<String> keys = vars->GetKeys();
 		int n = rng.range(1, 3);
 		GenOpts mo;
+		mo.writerKeys = true;   /* the values are written as DSL text by the config writer and read back by the compiler */
 		std::set<String> usedKeys;
 		for (int i = 0; i < n; i++) {
-			if (rng.below(4) == 0) {
+			if (IsCheckableKind(kind) && rng.below(4) == 0) {
 				mods->Add(new Array({ "notes", String(l_Strings[1 + rng.below(10)]) }));
 				continue;
 			}
@@ -797,7 +1041,8 @@ static Dictionary::Ptr GenSpec(Rng& rng, int idx)
 			usedKeys.insert(key);
 			if (vars->Get(key).IsObjectType<Dictionary>())
 				continue;
-			mods->Add(new Array({ Value("vars." + key), rng.below(100) < 35 ? GenOddNumberValue(rng) : GenValue(rng, 2, mo) }));
+			int vk = (int)rng.below(100);
+			mods->Add(new Array({ Value("vars." + key), vk < 30 ? GenOddNumberValue(rng) : vk < 60 ? Value(GenDict(rng, 2, mo, 1)) : GenValue(rng, 2, mo) }));
 		}
 		spec->Set("mods", mods);
 		if (rng.below(4) == 0 && mods->GetLength() > 0) {
@@ -883,6 +1128,61 @@ static std::string NumOracle(const Array::Ptr& mods)
 	return r.empty() ? "-" : r;
 }
 
+static void CollectKeys(const Value& v, std::set<std::string>& out)
+{
+	if (v.IsObjectType<Dictionary>()) {
+		Dictionary::Ptr d = v;
+		ObjectLock olock(d);
+		for (const auto& kv : d) {
+			out.insert(kv.first.GetData());
+			CollectKeys(kv.second, out);
+		}
+	} else if (v.IsObjectType<Array>()) {
+		Array::Ptr a = v;
+		ObjectLock olock(a);
+		for (const Value& x : a)
+			CollectKeys(x, out);
+	}
+}
+
+/* What the config writer + compiler make of each dictionary key inside the modifications (oracle input, as for numbers): a key
+ * `k` for which `{ k = 1 }` written by ConfigWriter::EmitValue does not evaluate to the same dictionary again is reported as
+ * `k:<hex key>>!` (the statement holding it fails when modified-attributes.conf is evaluated at start-up). */
+static std::string KeyOracle(const Array::Ptr& mods)
+{
+	std::set<std::string> keys;
+	if (mods) {
+		ObjectLock olock(mods);
+		for (const Value& m : mods)
+			CollectKeys(static_cast<Array::Ptr>(m)->Get(1), keys);
+	}
+	std::string r;
+	for (const auto& k : keys) {
+		Dictionary::Ptr d = new Dictionary({ { String(k), 1 } });
+		std::string before = J(d), after;
+		try {
+			std::ostringstream os;
+			ConfigWriter::EmitValue(os, 0, d);
+			std::unique_ptr<Expression> expr = ConfigCompiler::CompileText("<oracle>", os.str());
+			ScriptFrame frame(true);
+			after = J(expr->Evaluate(frame));
+		} catch (const std::exception&) {
+			after = "!";
+		}
+		if (after != before)
+			r += (r.empty() ? "" : ",") + std::string("k:") + (k.empty() ? "" : Hex(k)) + ">!";
+	}
+	return r;
+}
+
+static std::string Oracle(const Array::Ptr& mods)
+{
+	std::string n = NumOracle(mods), k = KeyOracle(mods);
+	if (k.empty())
+		return n;
+	return n == "-" ? k : n + "," + k;
+}
+
 static std::set<std::string> l_TypeValues;
 
 static void CollectTypeValues(const Value& v)
@@ -933,12 +1233,12 @@ static void RunSBatch(const std::vector<Dictionary::Ptr>& specs, int batchNo)
 	Configuration::ModAttrPath = modPath;
 	SetNow(l_Now);
 
-	std::vector<Checkable::Ptr> objs;
+	std::vector<ConfigObject::Ptr> objs;
 	{
 		std::ofstream sf(dir + "/specs.txt");
 		for (const auto& spec : specs) {
 			sf << Hex(J(spec)) << "\n";
-			Checkable::Ptr c = BuildConfig(spec);
+			ConfigObject::Ptr c = BuildConfig(spec);
 			ApplyState(c, spec->Get("st"));
 			ApplyMods(c, spec->Get("mods"));
 			objs.push_back(c);
@@ -954,10 +1254,11 @@ static void RunSBatch(const std::vector<Dictionary::Ptr>& specs, int batchNo)
 		for (size_t i = 0; i < specs.size(); i++)
 			ApplyRestores(objs[i], specs[i]->Get("restore"));
 	}
-	std::vector<std::string> sb, cb;
-	for (const auto& c : objs) {
-		sb.push_back(J(StateOf(c)));
-		cb.push_back(J(CfgOf(c)));
+	std::vector<std::string> sb, cb, gb;
+	for (size_t i = 0; i < objs.size(); i++) {
+		sb.push_back(J(StateOf(objs[i])));
+		cb.push_back(J(CfgOf(objs[i])));
+		gb.push_back(J(GettersOf(objs[i], specs[i]->Get("kind"))));
 	}
 	DumpBoth(statePath);
 	{
@@ -977,11 +1278,12 @@ static void RunSBatch(const std::vector<Dictionary::Ptr>& specs, int batchNo)
 	std::string loaded = "0";
 	af >> loaded;
 	for (size_t i = 0; i < specs.size(); i++) {
-		std::string sa = "-", ca = "-";
-		af >> sa >> ca;
+		std::string sa = "-", ca = "-", ga = "-";
+		af >> sa >> ca >> ga;
 		Dictionary::Ptr stateTree = JsonDecode(sb[i]);
-		printf("S %s | %s %s %s %s %s %s %s\n", Hex(J(specs[i])).c_str(), KnownTypes(stateTree).c_str(),
-			Hex(sb[i]).c_str(), sa.c_str(), Hex(cb[i]).c_str(), ca.c_str(), loaded.c_str(), NumOracle(specs[i]->Get("mods")).c_str());
+		printf("S %s | %s %s %s %s %s %s %s %s %s\n", Hex(J(specs[i])).c_str(), KnownTypes(stateTree).c_str(),
+			Hex(sb[i]).c_str(), sa.c_str(), Hex(cb[i]).c_str(), ca.c_str(), loaded.c_str(), Oracle(specs[i]->Get("mods")).c_str(),
+			Hex(gb[i]).c_str(), ga.c_str());
 	}
 	for (const auto& c : objs)
 		c->Unregister();
@@ -993,13 +1295,15 @@ static int RestoreMain(const std::string& dir)
 	Configuration::ModAttrPath = dir + "/modified-attributes.conf";
 	SetNow(l_Now + 60);
 	std::ifstream sf(dir + "/specs.txt");
-	std::vector<Checkable::Ptr> objs;
+	std::vector<ConfigObject::Ptr> objs;
+	std::vector<String> kinds;
 	std::string hx;
 	while (sf >> hx) {
 		std::string js;
 		UnHex(hx, js);
 		Dictionary::Ptr spec = JsonDecode(js);
 		objs.push_back(BuildConfig(spec));
+		kinds.push_back(spec->Get("kind"));
 	}
 	ConfigObject::RestoreObjects(dir + "/icinga2.state");          /* daemoncommand.cpp:289 */
 	int loaded = 1;
@@ -1010,8 +1314,8 @@ static int RestoreMain(const std::string& dir)
 	}
 	std::ofstream af(dir + "/after.txt");
 	af << loaded << "\n";
-	for (const auto& c : objs)
-		af << Hex(J(StateOf(c))) << " " << Hex(J(CfgOf(c))) << "\n";
+	for (size_t i = 0; i < objs.size(); i++)
+		af << Hex(J(StateOf(objs[i]))) << " " << Hex(J(CfgOf(objs[i]))) << " " << Hex(J(GettersOf(objs[i], kinds[i]))) << "\n";
 	af.close();
 	_exit(0);
 }
@@ -1367,6 +1671,8 @@ static int RunOps(const char *file)
 				std::string attr;
 				UnHex(w[1], attr);
 				DoRestore(mc, attr);
+			} else if (w[0] == "I" && w.size() >= 2) {
+				PrintInventory(w[1]);
 			} else if (w[0] == "S" && w.size() >= 2) {
 				std::string js;
 				UnHex(w[1], js);
@@ -1438,6 +1744,8 @@ int main(int argc, char **argv)
 	fflush(stdout);
 
 	/* (2) */
+	for (const char *t : l_InventoryTypes)
+		PrintInventory(t);
 	int batches = thorough ? 10 : 2;
 	int idx = 0;
 	{
@@ -1473,7 +1781,7 @@ int main(int argc, char **argv)
 	}
 	for (int b = 0; b < batches; b++) {
 		std::vector<Dictionary::Ptr> specs;
-		for (int i = 0; i < 150; i++)
+		for (int i = 0; i < 200; i++)
 			specs.push_back(GenSpec(rng, idx++));
 		RunSBatch(specs, b);
 	}
